@@ -118,16 +118,25 @@ def admissible(name, real):
     lay.check_positions(callback=errors.append)
     if errors:
         return False
-    try:
-        ps._check_screen_speakers(lay)
-    except ValueError:
-        return False
-    lay = ps._set_screen_speaker_nominal_positions(lay)
+    # screen loudspeakers: allowed ranges and the nominal position they stand for, taken from the documented rule
+    # (5-25 degrees -> nominal 15, 35-60 degrees -> nominal 45), NOT from the code under test
+    nominal_az = {}
+    for ch in lay.channels:
+        naz = ch.polar_nominal_position.azimuth
+        if ch.name in ("M+SC", "M-SC"):
+            a = abs(ch.polar_position.azimuth)
+            if 5.0 <= a <= 25.0:
+                naz = math.copysign(15.0, ch.polar_position.azimuth)
+            elif 35.0 <= a <= 60.0:
+                naz = math.copysign(45.0, ch.polar_position.azimuth)
+            else:
+                return False
+        nominal_az[ch.name] = naz
     layers = {}
     for ch in lay.channels:
         layers.setdefault(_layer(ch.polar_nominal_position.elevation), []).append(ch)
     for key, chans in layers.items():
-        chans = sorted(chans, key=lambda c: c.polar_nominal_position.azimuth)
+        chans = sorted(chans, key=lambda c: nominal_az[c.name])
         az = [c.polar_position.azimuth for c in chans]
         for a, b in zip(az, az[1:]):
             if not b - a >= MIN_SEP_DEG:
@@ -139,6 +148,10 @@ def admissible(name, real):
             if max(gaps) > MAX_GAP_DEG:
                 return False
     return True
+
+
+SCREEN_BOUNDARY = [5.0, float(np.nextafter(5.0, 6.0)), float(np.nextafter(25.0, 0.0)), 25.0,
+                   35.0, float(np.nextafter(35.0, 36.0)), float(np.nextafter(60.0, 0.0)), 60.0]
 
 
 def _pick(rng, lo, hi):
@@ -163,6 +176,9 @@ def gen_real(name, rng, symmetric=True, tries=200):
             if ch.name in real:
                 continue
             az = _pick(rng, *ch.az_range)
+            if ch.name in ("M+SC", "M-SC"):
+                sgn = 1.0 if ch.name == "M+SC" else -1.0
+                az = sgn * rng.choice(SCREEN_BOUNDARY + [round(rng.uniform(5, 25), 1), round(rng.uniform(35, 60), 1)])
             el = _pick(rng, *ch.el_range)
             real[ch.name] = (min(max(az, ch.az_range[0]), ch.az_range[1]), min(max(el, ch.el_range[0]), ch.el_range[1]))
             part = ch.name.replace("+", "-") if "+" in ch.name else None
@@ -194,6 +210,77 @@ def asym_catalogue():
     return out
 
 
+def boundary_catalogue():
+    """Fixed catalogue of admissible symmetric real layouts with positions EXACTLY ON the inclusive ends of the
+    permitted ranges: each channel (with its mirror partner) at each end of its az / el range, the others nominal;
+    all channels at their low / high ends; screen loudspeakers at exactly 5, 25, 35, 60 degrees and one ulp inside,
+    combined with M+-030 at both ends of its range.  Entries: (layout id, name, real positions, always).
+    `always` entries (screen loudspeakers, all-ends) run in every quick check, the rest is sampled there."""
+    bs2051 = _mods()[0]
+    out, seen = [], {}
+
+    def add(lid, name, real, always):
+        key = (name, tuple(sorted(real.items())))
+        if key in seen:
+            if always:  # an entry reached again through an always-run family is promoted
+                i = seen[key]
+                out[i] = out[i][:3] + (True,)
+            return
+        if not admissible(name, real):
+            return
+        seen[key] = len(out)
+        out.append((lid, name, real, always))
+
+    for name in LAYOUT_NAMES:
+        if not has_free_ranges(name):
+            continue
+        lay = bs2051.get_layout(name).without_lfe
+        byname = lay.channels_by_name
+        nominal = {c.name: (c.polar_position.azimuth, c.polar_position.elevation) for c in lay.channels}
+
+        def put(real, ch, az=None, el=None):
+            a, e = real[ch.name]
+            real[ch.name] = (a if az is None else az, e if el is None else el)
+            part = ch.name.replace("+", "-") if "+" in ch.name else None
+            if part in byname and part != ch.name:
+                real[part] = (-real[ch.name][0], real[ch.name][1])
+
+        for ch in lay.channels:
+            if "-" in ch.name[1:]:
+                continue
+            for field, ends in (("az", ch.az_range), ("el", ch.el_range)):
+                for v in ends:
+                    real = dict(nominal)
+                    put(real, ch, **{field: v})
+                    add("%s#bnd:%s:%s=%r" % (name, ch.name, field, v), name, real, False)
+        for tag, ia, ie in (("lo-lo", 0, 0), ("lo-hi", 0, 1), ("hi-lo", 1, 0), ("hi-hi", 1, 1)):
+            real = dict(nominal)
+            for ch in lay.channels:
+                if "-" in ch.name[1:]:
+                    continue
+                put(real, ch, az=ch.az_range[ia], el=ch.el_range[ie])
+            add("%s#bnd:all:%s" % (name, tag), name, real, True)
+        if "M+SC" in byname:
+            m030 = byname["M+030"]
+            for v in SCREEN_BOUNDARY:
+                for m in sorted(set(m030.az_range) | {nominal["M+030"][0]}):
+                    real = dict(nominal)
+                    put(real, byname["M+SC"], az=v)
+                    put(real, m030, az=m)
+                    add("%s#bnd:M+SC:az=%r:M+030=%r" % (name, v, m), name, real, True)
+    return out
+
+
+def boundary_for_run(ctx, n_sampled):
+    """The always-run boundary layouts plus `n_sampled` of the others (all of them if n_sampled is None)."""
+    cat = boundary_catalogue()
+    must = [c for c in cat if c[3]]
+    rest = [c for c in cat if not c[3]]
+    if n_sampled is not None and len(rest) > n_sampled:
+        rest = ctx.rng.sample(rest, n_sampled)
+    return [(lid, name, real) for lid, name, real, _ in must + rest]
+
+
 def real_catalogue():
     """Fixed catalogue of admissible symmetric real layouts (C12; also searched by C05)."""
     rng = random.Random("C12/real-catalogue/v1")
@@ -218,6 +305,7 @@ class Pan:
     def __init__(self, lid, name, real=None, nominal=None):
         _, ps, _, _ = _mods()
         self.lid, self.name, self.real = lid, name, real
+        self.group = name if real is None else name + ("/boundary" if "#bnd" in lid else "/real")
         self.nominal = (real is None) if nominal is None else nominal
         self.layout = make_layout(name, real)
         self.pan = ps.configure(self.layout)
@@ -432,7 +520,7 @@ def c05_predicates(pan, p, cls, kind, hits, counts, tagprefix=None):
             hit("source above the horizontal plane excites a lower-layer loudspeaker", {"gains": g.tolist()})
         if p[2] < 0 and np.any(g[pan.upper] > TOL):
             hit("source below the horizontal plane excites an upper-layer loudspeaker", {"gains": g.tolist()})
-    key = "%s|%s|%s" % (pan.name if pan.real is None else pan.name + "/real", kind, class_group(cls))
+    key = "%s|%s|%s" % (pan.group, kind, class_group(cls))
     counts[key] = counts.get(key, 0) + 1
     return calls
 
@@ -816,6 +904,10 @@ class C05(Spec):
                 tasks.append((lid, name, real, False, "%s/%d/%s" % (ctx.tier, ctx.seed, lid), per // 2, fib // 2, None))
             for lid, name, real in asym_catalogue():
                 tasks.append((lid, name, real, False, "%s/%d/%s" % (ctx.tier, ctx.seed, lid), per // 2, fib // 2, "asymmetric-catalogue:" + lid))
+            # positions exactly on the inclusive ends of the permitted ranges (inside the quantifier: failures here
+            # are violations; the tag only makes them easy to recognise)
+            for lid, name, real in boundary_for_run(ctx, 16 if ctx.quick else None):
+                tasks.append((lid, name, real, False, "%s/%d/%s" % (ctx.tier, ctx.seed, lid), max(1500, per // 4), max(100, fib // 4), "boundary-layout:" + lid))
         for lid, calls, counts, hits, samples in run_pool(tasks, _search_task):
             for k, v in counts.items():
                 ctx.count("search|" + k, v)
